@@ -43,7 +43,7 @@ class SimThreadState:
         'idx', 'name', 'sem', 'state', 'want', 'wake_at', 'cond', 'notified',
         'join_target', 'sock', 'last_time_read', 'wait_from', 'wait_timeout',
         'exc', 'prio', 'real', 'role', 'line_preempt', 'until', 'joiners',
-        'saved_count', 'activations')
+        'saved_count', 'activations', 'parks')
 
     def __init__(self, idx, name):
         self.idx = idx
@@ -68,6 +68,7 @@ class SimThreadState:
         self.joiners = []
         self.saved_count = 0
         self.activations = 0
+        self.parks = 0
 
     def __repr__(self):
         return f'<T{self.idx} {self.name} {STATE_NAMES[self.state]}>'
@@ -109,6 +110,7 @@ class Kernel:
         self.lock_seq = 0         # global sequence of outermost lock acquisitions
         self._line_gap = 0
         self.lines = 0
+        self._spin = 0
         self._rr_last = 0
 
         # PCT
@@ -206,8 +208,18 @@ class Kernel:
     # ----------------------------------------------------------------- time
     def time(self):
         me = self.current
+        # A loop that polls the clock without ever reaching a yield point
+        # must not freeze virtual time: busy-waiting consumes time.
+        self._spin += 1
+        if self._spin > 200:
+            self.now += 1e-6
+            self.probes['spin-time-advance'] += 1
+            if self._spin > 200000:
+                self.finish('livelock')
         if self.time_yield and not self.frozen:
+            sp = self._spin
             self.yield_point('time')
+            self._spin = sp
         me.last_time_read = self.now
         return self.epoch + self.now
 
@@ -271,6 +283,7 @@ class Kernel:
     # ---------------------------------------------------------- yield/switch
     def step(self):
         self.steps += 1
+        self._spin = 0
         if self.steps > self.max_steps:
             self.finish('inconclusive-steps')
 
@@ -578,6 +591,7 @@ class SimCondition:
         me.notified = False
         me.state = COND
         me.cond = self
+        me.parks += 1
         k._park_timed(me, timeout)
         k.log('cwait', me.idx, None if timeout is None else round(timeout, 9))
         k._switch()
